@@ -13,7 +13,7 @@ from tartiflette import Resolver, Directive
 from crosshair.tracers import NoTracing
 
 META = {
-    "bounds": "16 argument positions (Int, Int!, [Int], [[Int]], [Int!]!, String, Boolean, ID, Float, enum, recursive input object, [Inp!], each with/without schema default) "
+    "bounds": "19 argument positions (Int, Int!, [Int], [[Int]], [Int!]!, [String], [Color], [ID!], String, Boolean, ID, Float, enum, recursive input object, [Inp!], each with/without schema default) "
               "x 10 value expressions (leaf, lists <= 2, null, objects, nesting) x field and directive position; int literals abstracted as int(text)=n with n unbounded",
     "outside": "the decimal rendering/parsing of int literals (CPython int()); Float literals' text (C10); lists longer than 2",
     "explanation": "Each value is supplied as a literal and through a correctly typed variable (and nested in list/object literals); both argument dictionaries must equal the reference CoerceArgumentValues result.",
@@ -28,6 +28,7 @@ type Query {
   p_nli(x: [Int!]!): String  p_s(x: String): String  p_ds(x: String = "d"): String  p_b(x: Boolean): String  p_id(x: ID): String
   p_c(x: Color): String  p_dc(x: Color = GREEN): String  p_o(x: Inp): String  p_do(x: Inp = {x: 1}): String  p_lo(x: [Inp!]): String
   p_f(x: Float): String  p_dli(x: [Int] = [1, 2]): String p_dnull(x: Int = null): String
+  p_ls(x: [String]): String  p_lc(x: [Color]): String  p_lid(x: [ID!]): String
   sib: Int
 }
 """
@@ -193,7 +194,7 @@ def argvalue_node(ast, pos):
     return sel[0]["directives"][0]["arguments"][0]["value"]
 
 
-QUICK = [i for i, c in enumerate(CASES) if c["f"] in ("p_i", "p_ni", "p_li", "p_nli", "p_o", "p_c", "p_s", "p_di", "p_lo", "i", "o", "li") ]
+QUICK = [i for i, c in enumerate(CASES) if c["f"] in ("p_i", "p_ni", "p_li", "p_nli", "p_o", "p_c", "p_s", "p_di", "p_lo", "p_ls", "p_lc", "i", "o", "li") ]
 
 
 @obligation(tier="quick", timeout=200, shards=[{"case": i} for i in range(len(CASES))], quick_shards=QUICK,
